@@ -22,8 +22,10 @@ import (
 	"time"
 
 	"com.tuntun.rangers/node/src/common"
+	middleware_pb "com.tuntun.rangers/node/src/middleware/pb"
 	"com.tuntun.rangers/node/src/middleware/types"
 	"com.tuntun.rangers/node/src/utility"
+	"github.com/gogo/protobuf/proto"
 	"verif/harness/hx"
 )
 
@@ -335,8 +337,9 @@ func (g *gen) reqIds(prod bool) map[string]uint64 {
 		for j := range k {
 			k[j] = safeKeyAlphabet[g.r.Intn(len(safeKeyAlphabet))]
 		}
-		if !prod && g.r.Chance(1, 6) {
-			k = append(k, byte(g.r.Pick('"', '\\', '<', 0x7f, 0x01, 0xc3, 0xe2)))
+		if !prod && g.r.Chance(1, 4) {
+			k = append(k, [][]byte{{'"'}, {'\\'}, {'<'}, {0x7f}, {0x01}, {0xc3}, {0xe2}, {0xc3, 0xa9}, {0xe2, 0x82, 0xac}, {0xf0, 0x9f, 0x98, 0x80},
+				{0xe2, 0x80, 0xa8}, {'\n'}, {0xef, 0xbf, 0xbd}, {0xed, 0xa0, 0x80}, {'&', '>'}, {0x08, 0x0c}}[g.r.Intn(16)]...)
 		}
 		m[string(k)] = g.u64()
 	}
@@ -400,14 +403,56 @@ func (g *gen) tx(prod bool) *types.Transaction {
 		}
 		t.Sign = common.BytesToSign(b)
 	}
-	switch g.r.Intn(5) {
+	switch g.r.Intn(6) {
 	case 0:
 		t.SubTransactions = []types.UserData{}
 	case 1:
 		t.SubTransactions = []types.UserData{{Address: g.u64(), Assets: map[string]string{"a": "1", "b": "<x>"}},
 			{Address: 1, TransferData: types.TransferData{Balance: "12.5", Coin: map[string]string{"ETH": "1"}}}}
+	case 2:
+		n := 1 + g.r.Intn(3)
+		for i := 0; i < n; i++ {
+			t.SubTransactions = append(t.SubTransactions, g.userData(prod))
+		}
 	}
 	return t
+}
+
+func (g *gen) jsonStr(prod bool) string {
+	if prod { // strings that came out of json.Unmarshal are valid UTF-8
+		return []string{"", "a", "0x12", "1.5", "<&>", "\"q\"", "back\\slash", "tab\tnl\n", "\u00e9\u20ac", "\U0001F600", "\u2028", "del\x7f", "nul\x00",
+			"k" + strconv.Itoa(g.r.Intn(50))}[g.r.Intn(14)]
+	}
+	return []string{"", "a", "0x12", "1.5", "<&>", "\"q\"", "back\\slash", "tab\tnl\n", "\u00e9\u20ac", "\U0001F600", "\u2028", "del\x7f", "nul\x00",
+		"bad\xffutf8", "\xc3", "k" + strconv.Itoa(g.r.Intn(50))}[g.r.Intn(16)]
+}
+
+func (g *gen) strMap(prod bool) map[string]string {
+	switch g.r.Intn(4) {
+	case 0:
+		return nil
+	case 1:
+		return map[string]string{}
+	}
+	m := map[string]string{}
+	for n := 1 + g.r.Intn(3); n > 0; n-- {
+		m[g.jsonStr(prod)] = g.jsonStr(prod)
+	}
+	return m
+}
+
+func (g *gen) userData(prod bool) types.UserData {
+	u := types.UserData{Address: g.u64(), TransferData: types.TransferData{Balance: g.jsonStr(prod), Coin: g.strMap(prod), FT: g.strMap(prod)},
+		Assets: g.strMap(prod)}
+	if prod { // what json.Unmarshal leaves: omitted (empty) maps are nil
+		if len(u.Coin) == 0 {
+			u.Coin = nil
+		}
+		if len(u.FT) == 0 {
+			u.FT = nil
+		}
+	}
+	return u
 }
 
 func (g *gen) txs(prod bool) []*types.Transaction {
@@ -565,8 +610,56 @@ func doGM(o *hx.Out, g *types.Group) []byte {
 	return out
 }
 
+func ansMU(b []byte) string {
+	m, err := types.UnMarshalMember(b)
+	if err != nil {
+		return errClass(err)
+	}
+	if m == nil {
+		return "nil"
+	}
+	return "ok " + tokOpt(m.Id) + " " + tokOpt(m.PubKey)
+}
+
+// ansGroups: the group-sync receive path: proto.Unmarshal into a GroupSlice, then types.PbToGroups.
+func ansGroups(b []byte) string {
+	gs := new(middleware_pb.GroupSlice)
+	if err := proto.Unmarshal(b, gs); err != nil {
+		return errClass(err)
+	}
+	groups := types.PbToGroups(gs)
+	if len(groups) == 0 {
+		return "ok 0"
+	}
+	ps := []string{strconv.Itoa(len(groups))}
+	for _, g := range groups {
+		if g == nil {
+			return "nil"
+		}
+		ps = append(ps, tokGroup(g))
+	}
+	return "ok " + strings.Join(ps, " ")
+}
+
+func doMM(o *hx.Out, m *types.Member) []byte {
+	var out []byte
+	o.Do("mm "+tokOpt(m.Id)+" "+tokOpt(m.PubKey), func() string {
+		b, err := types.MarshalMember(m)
+		if err != nil {
+			return errClass(err)
+		}
+		out = b
+		return hx.Hex(b)
+	})
+	return out
+}
+
 func parseOp(kind string, b []byte) string {
 	switch kind {
+	case "mu":
+		return ansMU(b)
+	case "Gu":
+		return ansGroups(b)
 	case "hu":
 		return ansHU(b)
 	case "tu", "tuc":
@@ -666,6 +759,7 @@ var nested = map[string]map[uint64]string{
 	"s": {1: "t"},
 	"h": {12: "x", 19: "y"},
 	"g": {1: "q"},
+	"G": {1: "g"},
 }
 
 var timeFields = map[string]map[uint64]bool{"h": {4: true, 7: true}, "q": {5: true}}
@@ -708,7 +802,10 @@ func (g *gen) mutTime(b []byte) []byte {
 	return c
 }
 
-var reqIdVariants = []string{"null", "{}", "", "{\"a\":1}", "{\"b\":2,\"a\":1}", "{\"a\":1,\"a\":2}", "{\"a\":18446744073709551615}",
+var reqIdVariants = []string{"{\"\\ud83d\\ude00\":1}", "{\"\\ud800\":2}", "{\"\\udc00\\ud800\":2}", "{\"\\u2028\":3}", "{\"\xc3\xa9\":4}",
+	"{\"\xff\":5,\"\\ufffd\":6}", "{\"a\\/b\":7}", "{\"a\\'b\":8}", "{\"a\x01b\":9}", "{\"\\u00e9\":1,\"\xc3\xa9\":2}", "{\"\\n\\t\\\"\":1}",
+	"{\"\\uD83D\\uDE00x\":1}", "{\"\\ud83dx\":1}", "{\"\\u12\":1}", "{\"\xe2\x82\xac\":1}", "{\"\xe2\x82\":1}", "{\"\xed\xa0\x80\":1}", "{\"\xf0\x9f\x98\x80\":1}",
+	"null", "{}", "", "{\"a\":1}", "{\"b\":2,\"a\":1}", "{\"a\":1,\"a\":2}", "{\"a\":18446744073709551615}",
 	"{\"a\":18446744073709551616}", "{\"a\":01}", "{\"a\":-1}", "{\"a\":1.5}", "{\"a\":\"x\"}", "{\"a\":1} ", " {\"a\":1}", "[1]", "{\"a\":1",
 	"{\"\":0}", "{\"a\\u0041\":1}", "{\"<\":1}", "nul", "{\"a\":1,}", "{\"a\":0,\"b\":00}", "7", "\"s\"", "{\"a\":null}", "{\"k\":1,\"K\":2}"}
 
@@ -911,7 +1008,7 @@ func corr(a map[string]string) {
 	nCorpus := runCorpus(out)
 
 	// small scope: every 1-byte string and a slice of the 2-byte strings, through every parser
-	for _, k := range []string{"tu", "hu", "su", "bu", "gu"} {
+	for _, k := range []string{"tu", "hu", "su", "bu", "gu", "mu", "Gu"} {
 		doParse(out, k, nil)
 		for x := 0; x < 256; x++ {
 			doParse(out, k, []byte{byte(x)})
@@ -929,6 +1026,43 @@ func corr(a map[string]string) {
 				return "err"
 			}
 			return hx.Hex(b[1 : len(b)-1])
+		})
+	}
+
+	// JSON strings on their own: json.Marshal(string) and json.Unmarshal into a string
+	for i := 0; i < 250*scale; i++ {
+		var sb []byte
+		for n := g.r.Intn(5); n >= 0; n-- {
+			sb = append(sb, [][]byte{{'a'}, {'"'}, {'\\'}, {'/'}, {'<', '>'}, {'&'}, {0x7f}, {0x00}, {0x1f}, {'\n'}, {'\t'}, {0x08}, {0x0c}, {'\r'}, {0xc3, 0xa9},
+				{0xe2, 0x82, 0xac}, {0xf0, 0x9f, 0x98, 0x80}, {0xe2, 0x80, 0xa8}, {0xe2, 0x80, 0xa9}, {0xef, 0xbf, 0xbd}, {0xed, 0xa0, 0x80}, {0xc0, 0x80},
+				{0xf4, 0x90, 0x80, 0x80}, {0xff}, {0xc3}, {0xe2, 0x82}, g.r.Bytes(1), g.r.Bytes(2)}[g.r.Intn(28)]...)
+		}
+		out.Do("jq "+hx.Hex(sb), func() string {
+			b, err := json.Marshal(string(sb))
+			if err != nil {
+				return "err"
+			}
+			return hx.Hex(b)
+		})
+		lit := []byte{'"'}
+		for n := g.r.Intn(5); n >= 0; n-- {
+			lit = append(lit, [][]byte{[]byte("a"), []byte("\\n"), []byte("\\\""), []byte("\\\\"), []byte("\\/"), []byte("\\b\\f\\r\\t"), []byte("\\u0041"), []byte("\\u00e9"),
+				[]byte("\\ud83d\\ude00"), []byte("\\ud83d"), []byte("\\ude00"), []byte("\\ud83d\\u0041"), []byte("\\uD83D\\uDE00"), []byte("\\u2028"), []byte("\\u0000"),
+				[]byte("\\'"), []byte("\\x"), []byte("\\u12g4"), []byte("\\u12"), {0xc3, 0xa9}, {0xff}, {0xed, 0xa0, 0x80}, {0x01}, {0xf0, 0x9f, 0x98, 0x80}, {'\\'},
+				g.r.Bytes(1)}[g.r.Intn(26)]...)
+		}
+		if g.r.Chance(9, 10) {
+			lit = append(lit, '"')
+		}
+		if g.r.Chance(1, 15) {
+			lit = append(lit, 'x')
+		}
+		out.Do("ju "+hx.Hex(lit), func() string {
+			var sv string
+			if err := json.Unmarshal(lit, &sv); err != nil {
+				return "err"
+			}
+			return "ok " + hx.Hex([]byte(sv))
 		})
 	}
 
@@ -974,10 +1108,30 @@ func corr(a map[string]string) {
 				valid["g"] = append(valid["g"], b)
 			}
 		}
+		// member
+		if i%4 == 0 {
+			m := &types.Member{Id: g.optBytes(), PubKey: g.optBytes()}
+			if b := doMM(out, m); b != nil {
+				doParse(out, "mu", b)
+				valid["m"] = append(valid["m"], b)
+			}
+		}
+		// group slice (group sync response path: PbToGroups)
+		if i%5 == 0 {
+			n := g.r.Pick(0, 1, 2, 3)
+			gs := &middleware_pb.GroupSlice{}
+			for k := 0; k < n; k++ {
+				gs.Groups = append(gs.Groups, types.GroupToPb(g.group(prod)))
+			}
+			if b, err := proto.Marshal(gs); err == nil {
+				doParse(out, "Gu", b)
+				valid["G"] = append(valid["G"], b)
+			}
+		}
 	}
 	// every optional field absent, one at a time (first few valid messages of each kind)
-	kinds := map[string]string{"h": "hu", "t": "tu", "s": "su", "b": "bu", "g": "gu"}
-	for _, k := range []string{"h", "t", "s", "b", "g"} {
+	kinds := map[string]string{"h": "hu", "t": "tu", "s": "su", "b": "bu", "g": "gu", "m": "mu", "G": "Gu"}
+	for _, k := range []string{"h", "t", "s", "b", "g", "m", "G"} {
 		for i, b := range valid[k] {
 			if i >= 3*scale {
 				break
@@ -989,7 +1143,7 @@ func corr(a map[string]string) {
 	}
 	// malformed stream
 	for i := 0; i < 1500*scale; i++ {
-		k := []string{"h", "t", "s", "b", "g"}[g.r.Intn(5)]
+		k := []string{"h", "t", "s", "b", "g", "h", "t", "b", "g", "m", "G"}[g.r.Intn(11)]
 		if len(valid[k]) == 0 {
 			continue
 		}
@@ -998,7 +1152,7 @@ func corr(a map[string]string) {
 	}
 	// random byte strings
 	for i := 0; i < 300*scale; i++ {
-		k := []string{"hu", "tu", "su", "bu", "gu"}[g.r.Intn(5)]
+		k := []string{"hu", "tu", "su", "bu", "gu", "mu", "Gu"}[g.r.Intn(7)]
 		doParse(out, k, g.r.Bytes(g.r.Intn(24)))
 	}
 	fmt.Printf("STATS {\"corpus\":%d,\"dist\":%s}\n", nCorpus, out.StatsJSON())
@@ -1101,7 +1255,7 @@ func (s *searcher) checkParse(kind string, b []byte) {
 	s.evals++
 	res := hx.Guard(func() string { return parseOp(kind, b) })
 	s.dist[kind+":"+strings.SplitN(res, " ", 2)[0]] = true
-	name := map[string]string{"hu": "UnMarshalBlockHeader", "tu": "UnMarshalTransaction", "su": "UnMarshalTransactions",
+	name := map[string]string{"mu": "UnMarshalMember", "Gu": "PbToGroups", "hu": "UnMarshalBlockHeader", "tu": "UnMarshalTransaction", "su": "UnMarshalTransactions",
 		"bu": "UnMarshalBlock", "gu": "UnMarshalGroup"}[kind]
 	rp := map[string]string{"call": name, "bytes": hx.Hex(b), "observed": res}
 	switch {
@@ -1274,6 +1428,57 @@ func (s *searcher) run(g *gen, n int) {
 			s.add("group-roundtrip-"+strings.SplitN(res, " ", 2)[0], "producible group does not survive Marshal/UnMarshal: "+res,
 				map[string]string{"call": "MarshalGroup;UnMarshalGroup", "group": tokGroup(gr), "observed": res})
 		}
+		// --- member and group-slice round trips
+		mem := &types.Member{Id: g.r.Bytes(1 + g.r.Intn(33)), PubKey: g.r.Bytes(g.r.Intn(65))}
+		s.evals++
+		res = hx.Guard(func() string {
+			b, err := types.MarshalMember(mem)
+			if err != nil {
+				return "marshal-failed"
+			}
+			m2, err := types.UnMarshalMember(b)
+			if err != nil || m2 == nil {
+				return "reparse-failed"
+			}
+			if hx.Hex(m2.Id) != hx.Hex(mem.Id) || hx.Hex(m2.PubKey) != hx.Hex(mem.PubKey) {
+				return "content " + hx.Hex(mem.Id) + "/" + hx.Hex(mem.PubKey) + " -> " + hx.Hex(m2.Id) + "/" + hx.Hex(m2.PubKey)
+			}
+			return "same"
+		})
+		if res != "same" {
+			s.add("member-roundtrip-"+strings.SplitN(res, " ", 2)[0], "member does not survive Marshal/UnMarshal: "+res,
+				map[string]string{"call": "MarshalMember;UnMarshalMember", "id": hx.Hex(mem.Id), "pubkey": hx.Hex(mem.PubKey), "observed": res})
+		}
+		grs := []*types.Group{g.group(true), g.group(true)}
+		s.evals++
+		res = hx.Guard(func() string {
+			gs := &middleware_pb.GroupSlice{}
+			for _, x := range grs {
+				gs.Groups = append(gs.Groups, types.GroupToPb(x))
+			}
+			b, err := proto.Marshal(gs)
+			if err != nil {
+				return "marshal-failed"
+			}
+			gs2 := new(middleware_pb.GroupSlice)
+			if err := proto.Unmarshal(b, gs2); err != nil {
+				return "reparse-failed"
+			}
+			out := types.PbToGroups(gs2)
+			if len(out) != len(grs) {
+				return "count " + strconv.Itoa(len(grs)) + " -> " + strconv.Itoa(len(out))
+			}
+			for k := range out {
+				if d := diffTokens(tokGroup(grs[k]), tokGroup(out[k])); len(d) > 0 && !onlyIn(d, 7, 8, 9) {
+					return "content " + tokGroup(grs[k]) + " -> " + tokGroup(out[k])
+				}
+			}
+			return "same"
+		})
+		if res != "same" {
+			s.add("groups-roundtrip-"+strings.SplitN(res, " ", 2)[0], "group slice does not survive GroupToPb/Marshal/Unmarshal/PbToGroups: "+res,
+				map[string]string{"call": "GroupToPb;proto.Marshal;proto.Unmarshal;PbToGroups", "groups": tokGroup(grs[0]) + " | " + tokGroup(grs[1]), "observed": res})
+		}
 		// --- values obtained by parsing: a second pass must be the identity on content and hash
 		hb, _ := types.MarshalBlockHeader(g.header(false))
 		if hb != nil {
@@ -1281,9 +1486,13 @@ func (s *searcher) run(g *gen, n int) {
 			s.parsedHeaderRoundtrip(mb)
 		}
 		// --- totality on hostile input
-		for _, k := range []string{"h", "t", "s", "b", "g"} {
+		for _, k := range []string{"h", "t", "s", "b", "g", "m", "G"} {
 			var b []byte
 			switch k {
+			case "m":
+				b, _ = types.MarshalMember(&types.Member{Id: g.r.Bytes(3), PubKey: g.r.Bytes(4)})
+			case "G":
+				b, _ = proto.Marshal(&middleware_pb.GroupSlice{Groups: []*middleware_pb.Group{types.GroupToPb(g.group(false)), types.GroupToPb(g.group(false))}})
 			case "h":
 				b, _ = types.MarshalBlockHeader(g.header(false))
 			case "t":
@@ -1295,7 +1504,7 @@ func (s *searcher) run(g *gen, n int) {
 			case "g":
 				b, _ = types.MarshalGroup(g.group(false))
 			}
-			kind := map[string]string{"h": "hu", "t": "tu", "s": "su", "b": "bu", "g": "gu"}[k]
+			kind := map[string]string{"h": "hu", "t": "tu", "s": "su", "b": "bu", "g": "gu", "m": "mu", "G": "Gu"}[k]
 			s.checkParse(kind, g.mutate(k, b, 0))
 			if i < 40 {
 				for _, m := range dropEach(k, b, 0) {
@@ -1339,7 +1548,7 @@ func search(a map[string]string) {
 		b, _ := hx.UnHex(w)
 		s.parsedHeaderRoundtrip(b)
 	}
-	for _, k := range []string{"tu", "hu", "su", "bu", "gu"} {
+	for _, k := range []string{"tu", "hu", "su", "bu", "gu", "mu", "Gu"} {
 		for x := 0; x < 256; x++ {
 			s.checkParse(k, []byte{byte(x)})
 		}
